@@ -70,7 +70,7 @@ fn main() {
         }
         "C20" => {
             c20::run_all(&ctx);
-            ctx.finish(c20::RULE, &["schedules are perturbed (thread counts, oversubscription by the 16 parallel shards, concurrent workloads), not enumerated: a data race that needs one specific interleaving is only sampled", "no yield-injection hook (H3) is installed; the work-item census is replaced by byte equality of every output bit"], &[("threads_not_dividing", 20), ("threads_exceed_items", 10), ("shared_module_concurrent", 20), ("partial_prepare", 20)])
+            ctx.finish(c20::RULE, &["schedules are perturbed (thread counts, oversubscription by the 16 parallel shards, concurrent workloads), not enumerated: a data race that needs one specific interleaving is only sampled", "no yield-injection hook (H3) is installed; the work-item census is replaced by byte equality of every output bit"], &[("threads_not_dividing", 20), ("threads_exceed_items", 10), ("shared_module_concurrent", 20), ("partial_prepare", 20), ("receiver_held_another_word", 8)])
         }
         _ => {
             eprintln!("harness error: unknown property {prop}");
